@@ -39,8 +39,8 @@ ENTRIES = [
       "            filename = self._file_writer_session.save_document(response)\n\n            action = self._result_rule.handle_document(\n                self._item_session, filename\n            )\n            self._processing_rule.scrape_document(self._item_session)\n            return action", 'C03-D5', W),
     B('batch-cleared-unsaved', "        if len(self._add_url_batch) >= 1000:\n            self.app_session.factory['URLTable'].add_many(self._add_url_batch)\n            self._add_url_batch.clear()",
       "        if len(self._add_url_batch) >= 1000:\n            self._add_url_batch.clear()", 'C03-D5', I),
-    B('handle-response-in-handler', "            if request.body:\n                request.body.close()\n\n            if response:\n                response.body.close()\n\n            return True, wait_time",
-      "            if response:\n                self._handle_response(request, response)\n\n            if request.body:\n                request.body.close()\n\n            if response:\n                response.body.close()\n\n            return True, wait_time", 'C03-D6', W),
+    B('handle-response-in-handler', "            if request.body:\n                request.body.close()\n\n            if response and response.body:\n                response.body.close()\n\n            return True, wait_time",
+      "            if response:\n                self._handle_response(request, response)\n\n            if request.body:\n                request.body.close()\n\n            if response and response.body:\n                response.body.close()\n\n            return True, wait_time", 'C03-D6', W),
     B('done-for-any-action', "        if action == Actions.NORMAL:\n            self._statistics.increment(item_session.response.body.size())\n            item_session.set_status(Status.done, filename=filename)",
       "        if action != Actions.STOP:\n            self._statistics.increment(item_session.response.body.size())\n            item_session.set_status(Status.done, filename=filename)", 'C03-D6', 'wpull/processor/rule.py'),
     N('session-local-rename', "        session = self._session_maker()\n        try:\n            yield session\n            session.commit()\n        except:\n            session.rollback()\n            raise\n        finally:\n            session.close()",
